@@ -128,6 +128,9 @@ def rule_sizes_compared_per_axis(ck, m, rid, rels):
                     # (a version tuple compared with constants is fine)
                     if bad and any(isinstance(o, ast.Tuple) and all(isinstance(x, ast.Constant) for x in o.elts) for o in ops):
                         bad = []
+                    # compared with a number: the operand is a scalar that merely has a size-like name (tuple vs int does not even compare)
+                    if bad and any(isinstance(o, ast.Constant) and isinstance(o.value, (int, float)) for o in ops):
+                        bad = []
                     ck.ob(rid, enclosing_stmt(n), not bad, f"{q}: `{short(n, 60)}` orders size pairs lexicographically (the second dimension is only looked at when the first ones are equal): "
                           "sizes must be compared per axis", stmt=f"{q}: no lexicographic comparison of sizes: {short(n, 50)}")
     ck.expect(n_seen >= 10, f"ordering comparisons scanned: {n_seen}")
